@@ -62,14 +62,6 @@ Proof.
   destruct (simple_offset fb gs f) as [o'|] eqn:E'; [|discriminate]. right. now apply (IH f o').
 Qed.
 
-Lemma first_var_act f l v : first_variable_for_level fb f l = Some v -> isact fb f = true.
-Proof.
-  unfold first_variable_for_level. rewrite (f1_is_complex fb HF1 f).
-  destruct (l <? nlevels fb f); [|discriminate].
-  destruct (simple_offset fb (simple_act fb) f) as [o|] eqn:E; [|discriminate]. intros _.
-  apply simple_offset_in in E. rewrite (f1_simple_act fb HF1) in E. now apply (isact_In fb f).
-Qed.
-
 (** the shape of every [FDerivation] of an F1 record *)
 Lemma deriv_shape d deps f :
   In (FDerivation d deps f) (fl_constraints fb) ->
@@ -83,6 +75,7 @@ Proof.
   intros Hin. pose proof (in_f1_facts fb HF1) as F. pose proof (f1_derivations fb F) as HD.
   unfold derivations_match in HD. apply andb_true_iff in HD. destruct HD as [_ HD2].
   rewrite forallb_forall in HD2. specialize (HD2 _ Hin). cbn beta iota in HD2.
+  apply andb_true_iff in HD2. destruct HD2 as [Hf HD2].
   apply existsb_exists in HD2. destruct HD2 as (l & Hl & HD2). apply in_seq in Hl.
   unfold is_derivation_of in HD2. unfold factor_at in HD2.
   destruct (nth_error (fl_design fb) f) as [fd|] eqn:Efd; [|discriminate].
@@ -91,12 +84,12 @@ Proof.
   destruct (first_variable_for_level fb f l) as [v|] eqn:Ev; [|discriminate].
   rewrite !andb_true_iff in HD2. destruct HD2 as [[_ Hd] Hdeps]. apply Nat.eqb_eq in Hd.
   apply (list_eqb'_eq _ (list_eqb'_eq _ didx_eqb_eq)) in Hdeps.
-  assert (Hf : isact fb f = true) by (exact (first_var_act f l v Ev)).
   assert (Hl' : l < nlevels fb f) by lia.
   rewrite (f1_first_var fb HF1 f l Hf Hl') in Ev.
   assert (Hd' : d = off fb f + l) by congruence.
   destruct (f1_tables fb F f fd Efd) as [Htab _]. unfold tables_ok in Htab. rewrite Ew in Htab.
-  apply andb_true_iff in Htab. destruct Htab as [Hlt Hent]. rewrite forallb_forall in Hlt, Hent.
+  apply andb_true_iff in Htab. destruct Htab as [Hlt Hent]. rewrite Hf in Hent. cbn [negb orb] in Hent.
+  rewrite forallb_forall in Hlt, Hent.
   assert (Hlt' : Forall (fun dd => isact fb dd = true) (win_deps w)).
   { apply Forall_forall. intros dd Hdd. now apply Hlt. }
   assert (Hent' : Forall (fun entry => entry_ok fb (win_deps w) entry = true) (lv_accepts lv)).
